@@ -116,13 +116,31 @@ def replay_tree(ct, entry, fs, release=False):
 _W = {}
 
 
+def shape_filter(name):
+    """named slices of the shape space (quick tier: a slice of the next bound instead of all of it)"""
+    if name is None:
+        return lambda root: True
+    if name == "unary-3ops-1paren":      # three operators of which at least one is unary, exactly one parenthesised edge
+        def f(root):
+            k = {"Par": 0, "Un": 0, "Bin": 0}
+            def w(n):
+                k[n.kind] = k.get(n.kind, 0) + 1
+                for c in n.kids:
+                    w(c)
+            w(root)
+            return k["Par"] == 1 and k["Un"] >= 1 and k["Un"] + k["Bin"] == 3
+        return f
+    raise ValueError(name)
+
+
 def _work(job):
-    fs, entry_list, idx_list, max_ops, max_par, with_ta = job
+    fs, entry_list, idx_list, max_ops, max_par, with_ta = job[:6]
+    keep = shape_filter(job[6] if len(job) > 6 else None)
     R, O = _W["R"][fs], _W["O"][fs]
     out = {"queries": 0, "solver_s": 0.0, "sat": [], "inconclusive": [], "instances": 0, "shapes": 0, "vacuous": 0}
     want = set(idx_list)
     for si, mk in enumerate(shapes(max_ops, max_par, with_ta)):
-        if si not in want:
+        if si not in want or not keep(mk()):
             continue
         out["shapes"] += 1
         for entry, ctx, prefix in entry_list:
@@ -195,9 +213,11 @@ def run(ses, rep, plan=None):
         if quick:
             plan.append(("default", 3, 0, False))     # 3 operators, no redundant parentheses: all precedence/associativity triples
             plan.append(("default", 2, 2, False))     # up to two nested parentheses per edge
+            plan.append(("default", 3, 1, False, "unary-3ops-1paren"))   # a slice of the thorough bound: `a + (-b) ^ c` and its relatives
         else:
             plan.append(("full", 2, 2, True))
-    rep.bounds.update({"tiers": [{"features": p[0], "max_operators": p[1], "max_nested_parens_per_edge": p[2], "type_assertions": p[3]} for p in plan]})
+    rep.bounds.update({"tiers": [{"features": p[0], "max_operators": p[1], "max_nested_parens_per_edge": p[2], "type_assertions": p[3],
+                                  **({"slice": p[4]} if len(p) > 4 else {})} for p in plan]})
     rep.assumptions += ["width measurement, comment predicates and shape arithmetic are unconstrained (havoc): every layout path is explored",
                         "leaf formatters (format_var, format_function_call, format_table_constructor, format_token_reference, ...) return a node of the variant they are wrapped in; trivia updates return the same node (summaries)",
                         "BinOp::precedence / is_right_associative summarised from full_moon's make_bin_op! table",
@@ -223,13 +243,16 @@ def run(ses, rep, plan=None):
     rep.samples.append({"rule_sample": [_W["R"][plan[0][0]].describe(r) for r in _W["R"][plan[0][0]].raw_rules["format_expression_internal"][:3]]})
     ncpu = min(16, os.cpu_count() or 4)
     jobs = []
-    for fs, max_ops, max_par, with_ta in plan:
+    for p_ in plan:
+        fs, max_ops, max_par, with_ta = p_[:4]
+        sl = p_[4] if len(p_) > 4 else None
         n = sum(1 for _ in shapes(max_ops, max_par, with_ta))
-        rep.bounds.setdefault("shapes", {})[f"{fs}/{max_ops}/{max_par}"] = n
+        keep = shape_filter(sl)
+        rep.bounds.setdefault("shapes", {})[f"{fs}/{max_ops}/{max_par}" + (f"/{sl}" if sl else "")] = n if sl is None else sum(1 for mk in shapes(max_ops, max_par, with_ta) if keep(mk()))
         chunks = [list(range(k, n, ncpu * 4)) for k in range(ncpu * 4)]
         for ch in chunks:
             if ch:
-                jobs.append((fs, entries[fs], ch, max_ops, max_par, with_ta))
+                jobs.append((fs, entries[fs], ch, max_ops, max_par, with_ta, sl))
     ctx = multiprocessing.get_context("fork")
     with ctx.Pool(ncpu) as pool:
         results = pool.map(_work, jobs, chunksize=1)
